@@ -978,6 +978,10 @@ pub struct MergeCase {
     pub mode: String,
     /// library mode: make stream `0` yield an error at this item index
     pub error_at: Option<(usize, usize)>,
+    /// tool mode: 0 = every input with `-b`; 1 = every input through one `-l` list file; 2 = the first with `-b`,
+    /// the others through a list file
+    #[serde(default)]
+    pub via_list: u8,
 }
 
 fn exact_value(rng: &mut Rng) -> f32 {
@@ -1079,6 +1083,7 @@ pub fn gen_merge(rng: &mut Rng) -> MergeCase {
         threshold: if rng.chance(1, 2) { Some(*rng.pick(&[-10.0f32, 0.5, 1.0, -0.25])) } else { None },
         mode,
         error_at,
+        via_list: if rng.chance(1, 4) { 1 + rng.below(2) as u8 } else { 0 },
     }
 }
 
@@ -1384,9 +1389,23 @@ fn run_merge_inner(c: &MergeCase, st: &mut RunStats) -> Verdict {
     };
     let outp: PathBuf = dir.path().join(&fname);
     let mut argv = vec!["bigwigmerge".to_string(), p2s(&outp)];
-    for p in &in_paths {
+    let direct = match c.via_list {
+        0 => in_paths.len(),
+        1 => 0,
+        _ => 1,
+    };
+    for p in &in_paths[..direct] {
         argv.push("-b".into());
         argv.push(p2s(p));
+    }
+    if direct < in_paths.len() {
+        let list = dir.path().join("inputs.txt");
+        let text: String = in_paths[direct..].iter().map(|p| format!("{}\n", p2s(p))).collect();
+        if std::fs::write(&list, text).is_err() {
+            return Verdict::Skip("HARNESS: scratch write".into());
+        }
+        argv.push("-l".into());
+        argv.push(p2s(&list));
     }
     if let Some(t) = c.threshold {
         argv.push(format!("--threshold={}", t));
@@ -1510,6 +1529,7 @@ pub fn shrink_merge(c: &MergeCase) -> Vec<MergeCase> {
     push(&|n| n.clip = None);
     push(&|n| n.adjust = None);
     push(&|n| n.threshold = None);
+    push(&|n| n.via_list = 0);
     for k in 0..c.inputs.len() {
         if c.inputs.len() > 1 {
             push(&move |n| {
